@@ -2,10 +2,9 @@
 
 use super::*;
 use crate::{gen::*, image::*, interp::*, model::*, runner::*, spec::*};
-use parity_db::Db;
 use proptest::prelude::*;
 use serde::{Deserialize, Serialize};
-use std::{collections::BTreeMap, path::Path};
+use std::path::Path;
 
 pub fn def() -> PropDef {
 	PropDef {
